@@ -16,6 +16,8 @@ for m in sorted(glob.glob(os.path.join(V, "seeded", "*", "meta.json"))):
         r0 = next((r for r in reps if isinstance(r, dict)), None)
         by = f"`./check {d.get('property')}` quick: {r0['kind']} at `{r0['call_site'].split('.')[-2] + '.' + r0['call_site'].split('.')[-1] if '.' in r0['call_site'] else r0['call_site']}` — {r0['signature'][:90]}" if r0 else "quick check"
         by = by.replace("|", "/")
+    elif d.get("outside_property"):
+        by = "outside the property sentence (see meta.json note); not claimed"
     else:
         by = "**not yet caught** (exit %s)" % c.get("check_exit")
     ok = all(c.get(k) for k in ("demo_passes_on_repo", "demo_fails_with_patch", "suite_passes_with_patch"))
@@ -23,8 +25,9 @@ for m in sorted(glob.glob(os.path.join(V, "seeded", "*", "meta.json"))):
 tbl = ["| seed | file(s) | change | confirmed (demo ±, suite green) | caught by |", "|---|---|---|---|---|"]
 for n, f, w, b, ok in rows:
     tbl.append(f"| {n} | {f} | {w} | {ok} | {b} |")
-caught = sum(1 for r in rows if "not yet caught" not in r[3])
-summary = f"{len(rows)} seeded changes, {caught} caught by the quick tier of the property's check, {len(rows) - caught} not yet caught."
+outside = sum(1 for r in rows if "outside the property" in r[3])
+caught = sum(1 for r in rows if "not yet caught" not in r[3] and "outside the property" not in r[3])
+summary = f"{len(rows)} seeded changes, {caught} caught by the quick tier of the property's check, {len(rows) - caught - outside} not yet caught, {outside} judged outside their property sentence."
 text = summary + "\n\n" + "\n".join(tbl) + "\n"
 open(os.path.join(V, "seeded", "INDEX.md"), "w").write("# Seeded changes\n\n" + text)
 p = os.path.join(V, "DESIGN.md")
